@@ -1106,7 +1106,47 @@ def w_filters(failure, tier):
     return dict(found=False, note='filter trees: %d filters over nested documents agree with the documented semantics' % n)
 
 
+# ---------------------------------------------------------------- U33 top_hits sizing
+def w_tophits(failure, tier):
+    """top_hits with any size / from a request can carry: a response, never a panic"""
+    docs = [{"_id": "d%d" % i, "body": "alpha filler"} for i in range(4)]
+    big = 18446744073709551615
+    reqs = []
+    for frm, size in ((0, 3), (1, big), (1, big - 1), (0, big), (big, big), (big, 1), (2, big - 2), (0, 0)):
+        reqs.append(dict(REQ_BASE, query="alpha", limit=2, aggs={"th": {"type": "top_hits", "size": size, "from": frm}}))
+    for batches in ([docs], [docs[:2], docs[2:]]):
+        out, err = drive_search({"schema": None, "batches": batches, "requests": reqs})
+        if out is None:
+            return dict(found=False, note='search driver failed: %s' % err)
+        for r, o in zip(reqs, out):
+            if 'panic' in o:
+                return dict(found=True, cmd='%s search <<< hex(json)' % BIN,
+                            input='4 documents in %d segment(s), query "alpha" with aggregation %s' % (len(batches), _json.dumps(r['aggs'])),
+                            observed='PANIC ' + str(o['panic'])[:200], expected='a response (Ok or Err): no request may panic the search')
+    # C12: the window [from, from + size) of top_hits does not depend on how the documents are spread over segments
+    docs6 = [{"_id": "d%d" % i, "body": "alpha filler"} for i in range(6)]
+    wins = [(0, 3), (1, 3), (2, 2), (3, 3), (5, 4), (6, 1)]
+    wreqs = [dict(REQ_BASE, query="alpha", limit=2, aggs={"th": {"type": "top_hits", "size": size, "from": frm}}) for (frm, size) in wins]
+    ref = None
+    for batches in ([docs6], [docs6[:3], docs6[3:]], [docs6[:2], docs6[2:4], docs6[4:]], [docs6[:1], docs6[1:]]):
+        out, err = drive_search({"schema": None, "batches": batches, "requests": wreqs})
+        if out is None:
+            return dict(found=False, note='search driver failed: %s' % err)
+        got = [[h['doc_id'] for h in o['ok']['aggregations']['th']['hits']] if 'ok' in o else str(o)[:80] for o in out]
+        if ref is None:
+            ref = got
+        elif got != ref:
+            k = [i for i in range(len(got)) if got[i] != ref[i]][0]
+            return dict(found=True, cmd='%s search <<< hex(json)' % BIN,
+                        input='6 documents in %d segments, query "alpha", top_hits from %d size %d' % (len(batches), wins[k][0], wins[k][1]),
+                        observed='hits %s' % got[k], expected='%s (what a single segment returns: the offset is applied once, to the merged hits)' % ref[k])
+    return dict(found=False, note='top_hits: %d requests with extreme size / from answered without panic; %d windows identical over 4 segmentations' % (2 * len(reqs), len(wins)))
+
+
 GENERATORS = {
+    ('U33', 'merge_capacity'): w_tophits,
+    ('U33', 'finish_window'): w_tophits,
+    ('U33', 'merge_window'): w_tophits,
     ('U31', 'matches_i64_range'): w_filters,
     ('U31', 'doc_range'): w_filters,
     ('U31', 'object_range'): w_filters,
